@@ -243,6 +243,7 @@ def suite_book(ctx):
     ctx.cov['option_cases'] = stats
     # setter sequences: mutual exclusion
     bad += setter_sequences(ctx, emg3d, rng)
+    bad += setters_vs_fresh(ctx, emg3d, rng)
     ctx.oblige('correspondence: Fourier freq_coarse / index masks / data flow '
                'of interpolate (recorded SciPy calls) == Fou model; option '
                'setters == Fou.coarseStep', 'correspondence',
@@ -284,6 +285,96 @@ def setter_sequences(ctx, emg3d, rng):
                 if got != st or (got[0] and got[1]):
                     bad.append(('setters', t, got, st))
         ctx.count(key=('setters', t))
+    return bad
+
+
+def attrs(F):
+    return (np.asarray(F.freq_required).tolist(),
+            np.asarray(F.freq_coarse).tolist(),
+            np.asarray(F.ifreq_compute).tolist(),
+            np.asarray(F.ifreq_extrapolate).tolist(),
+            np.asarray(F.ifreq_interpolate).tolist(),
+            float(F.fmin), float(F.fmax), F.signal, F.ft,
+            sorted((k, canon_arg(v)) for k, v in F.ftarg.items()))
+
+
+def canon_arg(v):
+    if hasattr(v, 'name') and hasattr(v, 'base'):
+        return 'filter:' + str(v.name)
+    if isinstance(v, np.ndarray):
+        return repr(np.asarray(v).tolist())
+    if isinstance(v, (list, tuple)):
+        return repr([canon_arg(x) for x in v])
+    if isinstance(v, (float, np.floating)):
+        return repr(float(v))
+    return repr(v)
+
+
+def setters_vs_fresh(ctx, emg3d, rng):
+    """An instance changed through its setters == a fresh instance."""
+    bad = []
+    for t in range(20 if ctx.thorough else 8):
+        try:
+            F, tag = gen_fourier(emg3d, rng, t)
+            G, _ = gen_fourier(emg3d, rng, t + 1)
+        except Exception:       # noqa
+            continue
+        with warnings.catch_warnings():
+            warnings.simplefilter('ignore')
+            # move F to G's parameters through the documented setters
+            F.signal = G.signal
+            F.fourier_arguments(G.ft, dict(G.ftarg))
+            F.time = G.time
+            F.fmin = G.fmin
+            F.fmax = G.fmax
+            F.every_x_freq = G.every_x_freq
+            F.input_freq = G.input_freq
+            if G.every_x_freq is not None:
+                F.every_x_freq = G.every_x_freq
+        a, b = attrs(F), attrs(G)
+        if a != b:
+            k = [i for i, (x, y) in enumerate(zip(a, b)) if x != y]
+            bad.append(('setters-vs-fresh', tag, k))
+            ctx.violation(
+                'setter-state-differs-from-fresh',
+                f'Fourier changed through its setters differs from a fresh '
+                f'instance with the same parameters (attribute groups {k})',
+                {'from': repr(tag), 'fmin': G.fmin, 'fmax': G.fmax})
+        ctx.count(key=('setters-fresh', t))
+    # the signal alone: switch-off <-> switch-on on the same instance
+    import empymod
+    time = np.logspace(-1, 1, 6)
+    for s0, s1 in [(-1, 1), (1, -1), (0, 1), (0, -1), (1, 0)]:
+        for ft, ftarg in [('dlf', {}), ('dlf', {'dlf': 'key_81_2009',
+                                               'pts_per_dec': 10}),
+                          ('fftlog', {})]:
+            with warnings.catch_warnings():
+                warnings.simplefilter('ignore')
+                F = emg3d.Fourier(time, 1e-3, 1e2, signal=s0, ft=ft,
+                                  ftarg=dict(ftarg), verb=0)
+                F.signal = s1
+                G = emg3d.Fourier(time, 1e-3, 1e2, signal=s1, ft=ft,
+                                  ftarg=dict(ftarg), verb=0)
+                if not np.array_equal(F.freq_compute, G.freq_compute):
+                    bad.append(('signal-setter freq', s0, s1, ft))
+                    continue
+                fd = empymod.dipole([0, 0, 0.01], [900., 0, 0.01], [], [1],
+                                    G.freq_compute, verb=0)
+                a = F.freq2time(fd, 900.)
+                b = G.freq2time(fd, 900.)
+            # for the impulse response the sine / cosine kind is the user's
+            # choice (both valid): compare loosely there
+            tol = 1e-10 if s1 != 0 else 5e-2
+            if not np.allclose(a, b, rtol=tol, atol=0):
+                bad.append(('signal-setter', s0, s1, ft))
+                ctx.violation(
+                    'signal-setter-stale-transform',
+                    f'Fourier(signal={s0}, ft={ft!r}); fourier.signal = {s1}: '
+                    f'freq2time gives {a[:3].tolist()}…, a fresh '
+                    f'Fourier(signal={s1}) gives {b[:3].tolist()}…',
+                    {'signal_from': s0, 'signal_to': s1, 'ft': ft,
+                     'ftarg': repr(ftarg)})
+            ctx.count(key=('signal-setter', s0, s1, ft, repr(ftarg)))
     return bad
 
 
